@@ -1,32 +1,49 @@
 #!/usr/bin/env python3
-"""Apply deliberate property-breaking edits to /repo, run checks, revert.
-usage: tools/mutant.py <mutant.json>... [--tier quick] [--keep-going]
+"""Apply deliberate property-breaking edits to a scratch copy of /repo, run checks against it, remove it.
+usage: tools/mutant.py <mutant.json>... [--thorough] [--tests]
 mutant.json: {"id":..., "property":"C01", "checks":["C01"], "edits":[{"file":..,"old":..,"new":..}], "why":...}
-Prints one line per (mutant, check): DETECTED / MISSED (exit code)."""
-import json, subprocess, sys, os
+           or {"id":..., "checks":[..], "patch":"path/to/patch.diff"}
+Prints one line per (mutant, check): DETECTED / MISSED (exit code). --tests also runs the repository's own tests
+of the touched packages on the mutant (they should still pass for the mutant to be interesting)."""
+import json, subprocess, sys, os, shutil, tempfile
+ENV = "GOFLAGS=-mod=mod GOPROXY=off GOSUMDB=off GOTOOLCHAIN=local"
 def sh(cmd, **kw): return subprocess.run(cmd, shell=True, capture_output=True, text=True, **kw)
 def main():
-    tier = "quick"
+    tier = "thorough" if "--thorough" in sys.argv else "quick"
     files = [a for a in sys.argv[1:] if not a.startswith("--")]
-    if "--thorough" in sys.argv: tier = "thorough"
-    assert sh("git -C /repo status --porcelain").stdout.strip() == "", "/repo not clean"
     for f in files:
         m = json.load(open(f))
+        d = tempfile.mkdtemp(prefix="mut-", dir="/tmp")
         try:
-            for e in m["edits"]:
-                p = os.path.join("/repo", e["file"])
+            sh(f"rsync -a --exclude .git /repo/ {d}/")
+            touched = set()
+            if "patch" in m:
+                pp = m["patch"] if os.path.isabs(m["patch"]) else os.path.join(os.path.dirname(os.path.abspath(f)), m["patch"])
+                r = sh(f"cd {d} && patch -p1 < {pp}")
+                if r.returncode != 0:
+                    print(f"{m['id']}: PATCH-FAILED {r.stdout[-300:]}"); continue
+                for l in open(pp):
+                    if l.startswith("+++ b/"): touched.add(os.path.dirname(l[6:].strip()))
+            for e in m.get("edits", []):
+                p = os.path.join(d, e["file"])
                 s = open(p).read()
                 assert s.count(e["old"]) >= 1, f"{f}: pattern not found in {e['file']}"
                 s = s.replace(e["old"], e["new"], e.get("count", 1))
                 open(p, "w").write(s)
-            b = sh("cd /repo && GOFLAGS=-mod=mod GOPROXY=off go build ./... 2>&1")
+                touched.add(os.path.dirname(e["file"]))
+            b = sh(f"cd {d} && {ENV} go build ./... 2>&1")
             if b.returncode != 0:
                 print(f"{m['id']}: DOES-NOT-COMPILE\n{b.stdout[-500:]}"); continue
+            if "--tests" in sys.argv:
+                pk = " ".join("./" + t + "/..." for t in touched)
+                t = sh(f"cd {d} && {ENV} go test -count=1 -vet=off {pk} 2>&1")
+                print(f"{m['id']}: repository tests on {pk}: {'pass' if t.returncode==0 else 'FAIL'}")
             for c in m["checks"]:
-                r = sh(f"cd /verif && ./run {c} {tier}")
+                r = sh(f"cd /verif && VERIF_REPO={d} ./run {c} {tier}")
                 viol = [l for l in r.stdout.splitlines() if l.startswith("VIOLATION")]
-                sig = [l.strip() for l in r.stdout.splitlines() if l.strip().startswith("sig=")][:2]
-                print(f"{m['id']} x {c} {tier}: {'DETECTED' if r.returncode==1 and viol else 'MISSED'} (exit {r.returncode}) {sig}")
+                sig = [l.strip()[:230] for l in r.stdout.splitlines() if l.strip().startswith("sig=")][:2]
+                print(f"{m['id']} x {c} {tier}: {'DETECTED' if r.returncode==1 and viol else 'MISSED'} (exit {r.returncode}) {sig}", flush=True)
         finally:
-            sh("git -C /repo checkout -- .")
+            shutil.rmtree(d, ignore_errors=True)
+            sh("rm -f /verif/bin/*.[0-9]* /verif/.work/go.*.mod /verif/.work/go.*.sum")
 main()
